@@ -74,7 +74,8 @@ def sds_st(draw, i, nsess):
     dims = [draw(st.integers(1, 7)) for _ in range(rank)]
     layout = draw(st.sampled_from(SD_LAYOUTS))
     o = dict(kind="sds", name="sds%d" % i, nt=nt, dims=dims, layout=layout, sess=draw(st.integers(0, nsess - 1)),
-             attr=draw(st.booleans()))
+             attr=draw(st.booleans()), dimname=draw(st.booleans()), dimscale=draw(st.booleans()),
+             dimattr=draw(st.booleans()))
     if layout.startswith("chunk"):
         o["chunk"] = [draw(st.integers(1, d)) for d in dims]
     # row ranges along dimension 0, each written in some session >= the creating one
@@ -160,6 +161,7 @@ def strategy_(draw, tier):
     if not objs:
         objs.append(draw(vd_st(0, nsess)))
     return {"nsess": nsess, "ndds": draw(st.sampled_from([0, 0, 1, 4, 40])), "cache": draw(st.booleans()),
+            "gattr": draw(st.booleans()),
             "sd_first": draw(st.booleans()), "objs": objs, "ann": ann,
             "q": [[draw(st.integers(0, 3)), draw(st.sampled_from([1, 1, 2, 3, 5, 64]))] for _ in range(4)]}
 
@@ -197,6 +199,9 @@ def build_sessions(case, d, model):
                 return
             p.call("i", "SDstart", "f.hdf", 3 if (os.path.exists(os.path.join(d, "f.hdf")) or model["_created"]) else 4, bind="sd")
             model["_created"] = True
+            if case.get("gattr") and "_gattr" not in model:
+                model["_gattr"] = vals("int32", 4, 23)
+                p.call("i", "SDsetattr", V("sd"), "gattr", 24, 4, native(model["_gattr"]))
             for o in sd_objs:
                 nt = o["nt"]
                 shape = list(o["dims"])
@@ -229,6 +234,16 @@ def build_sessions(case, d, model):
                         av = vals("int16", 3, 5)
                         p.call("i", "SDsetattr", V("s"), "sattr", 22, 3, native(av))
                         m["attr"] = be(av, "int16")
+                    if o.get("dimname") or o.get("dimscale") or o.get("dimattr"):
+                        # dimension metadata of the slowest dimension (names are unique per dataset: no sharing)
+                        p.call("i", "SDgetdimid", V("s"), 0, bind="dm")
+                        if o.get("dimname"):
+                            p.call("i", "SDsetdimname", V("dm"), "d_%s" % o["name"])
+                        if o.get("dimscale") and lay != "unlim":
+                            p.call("i", "SDsetdimscale", V("dm"), shape[0], NTS[nt][0], native(vals(nt, shape[0], 13)))
+                        if o.get("dimattr"):
+                            p.call("i", "SDsetdimstrs", V("dm"), "lab_" + o["name"], "unit", "fmt")
+                            p.call("i", "SDsetattr", V("dm"), "dattr", 24, 2, native(vals("int32", 2, 17)))
                 else:
                     p.call("i", "SDnametoindex", V("sd"), o["name"], bind="ix")
                     p.call("i", "SDselect", V("sd"), V("ix"), bind="s")
